@@ -29,31 +29,33 @@ Theorem dgram_send_one_refuted_for_empty_payload :
 Proof. exists (fun x => x), {| inq := []; outq := [] |}, []. vm_compute. reflexivity. Qed.
 Print Assumptions dgram_send_one_refuted_for_empty_payload.
 
-(* receiving n queued datagrams = map of the per-datagram function over the first n datagrams, the rest stays queued
-   untouched: never merged, split or carried over *)
+(* receiving n queued items (datagrams, and positions of asynchronous socket errors) = map of the per-item function
+   over the first n items, the rest stays queued untouched: never merged, split, skipped or carried over *)
 Theorem dgram_recv_map :
   forall (P Q : Type) (deserialize : bytes -> ores P) (from_dto : P -> option Q) (n : nat) (t : transport),
     n <= length (inq t) ->
     recv_n deserialize from_dto n t =
-      ({| inq := skipn n (inq t); outq := outq t |}, map (build_packet_from_datagram deserialize from_dto) (firstn n (inq t))).
+      ({| inq := skipn n (inq t); outq := outq t |}, map (item_result deserialize from_dto) (firstn n (inq t))).
 Proof. intros. apply recvn_map; assumption. Qed.
 Print Assumptions dgram_recv_map.
 
-(* the same under ANY interleaving of sends, receives (also on an empty queue) and arrivals on one endpoint *)
+(* the same under ANY interleaving of sends, receives (also on an empty queue), receives whose task is cancelled,
+   arrivals and asynchronous socket errors on one endpoint: the outcomes that consumed something are exactly the
+   per-item results of a prefix of everything that entered the queue, in order; the rest is still queued *)
 Theorem dgram_recv_map_any_interleaving :
   forall (P Q : Type) (serialize : P -> bytes) (deserialize : bytes -> ores P) (to_dto : Q -> P) (from_dto : P -> option Q)
          (drop_empty : bool) (os : list op) (t : transport),
     exists k, k <= length (inq t ++ arrivals_of os) /\
       filter is_data (snd (do_ops serialize deserialize to_dto from_dto drop_empty t os)) =
-        map (build_packet_from_datagram deserialize from_dto) (firstn k (inq t ++ arrivals_of os)) /\
+        map (item_result deserialize from_dto) (firstn k (inq t ++ arrivals_of os)) /\
       inq (fst (do_ops serialize deserialize to_dto from_dto drop_empty t os)) = skipn k (inq t ++ arrivals_of os).
 Proof. intros. apply ops_map. Qed.
 Print Assumptions dgram_recv_map_any_interleaving.
 
 (* errors isolated: the result for datagram i depends on datagram i only *)
 Theorem dgram_errors_isolated :
-  forall (P Q : Type) (deserialize : bytes -> ores P) (from_dto : P -> option Q) (ds ds' o o' : list bytes) (i : nat),
-    i < length ds -> i < length ds' -> nth i ds [] = nth i ds' [] ->
+  forall (P Q : Type) (deserialize : bytes -> ores P) (from_dto : P -> option Q) (ds ds' : list item) (o o' : list bytes) (i : nat),
+    i < length ds -> i < length ds' -> nth i ds IErr = nth i ds' IErr ->
     nth i (snd (recv_n deserialize from_dto (length ds) {| inq := ds; outq := o |})) RNoData =
     nth i (snd (recv_n deserialize from_dto (length ds') {| inq := ds'; outq := o' |})) RNoData.
 Proof. intros. apply isolated; assumption. Qed.
@@ -100,6 +102,6 @@ Example c05_overlap_excluded : find0 [97%N; 97%N] ([97%N] ++ [97%N; 97%N]) = Som
 Proof. reflexivity. Qed.
 Example c05_bad_then_good :
   snd (recv_n (oneshot_deserialize (rx_framer 2 (fun x => Some x))) (fun p => Some p) 3
-         {| inq := [[1%N]; [1%N; 2%N]; [1%N; 2%N; 3%N]]; outq := [] |})
-  = [RParseError EMissing; RPacket [1%N; 2%N]; RParseError EExtra].
+         {| inq := [IData [1%N]; IData [1%N; 2%N]; IErr; IData [1%N; 2%N; 3%N]]; outq := [] |})
+  = [RParseError EMissing; RPacket [1%N; 2%N]; RSockError].
 Proof. reflexivity. Qed.
